@@ -49,7 +49,9 @@
        (vm_compute on the tiny table set of Tree/Files.v). *)
 From AV Require Import Base.Bytes Base.Outcome Hash.HashModel Tree.Heap Tree.Ops Tree.Script Tree.Serialize Tree.Inv.
 From AV Require Import Tree.Files Tree.FilesProofsProj Tree.FilesProofsFrame Tree.FilesProofsAdd Tree.FilesProofsRemove Tree.FilesProofsExact Tree.FilesProofsLast Tree.FilesProofsMove
-  Tree.FilesProofsInv Tree.FilesProofsHist Tree.FilesProofsTop Tree.FilesProofsExact2 Tree.FilesProofsOwned Tree.FilesProofsText Tree.FilesProofsLoad Tree.FilesProofsOp2.
+  Tree.FilesProofsInv Tree.FilesProofsHist Tree.FilesProofsTop Tree.FilesProofsExact2 Tree.FilesProofsOwned Tree.FilesProofsText Tree.FilesProofsLoad Tree.FilesProofsOp2
+  Tree.FilesLoad Tree.FilesProofsMerge Tree.FilesProofsBridge Tree.FilesProofsLoad2 Tree.FilesProofsLoad3 Tree.FilesProofsLoad4 Tree.FilesProofsLoad5.
+From AV Require Tree.Load Tree.MergeSpec Tree.MergePure Tree.MergePureProofs Tree.LoadRefineBase Tree.LoadRefinePure Tree.LoadRefineMain Tree.LoadRefineTop.
 From AV Require Import Tree.Script2.
 From AV Require Tree.Index Tree.Copy Xml.Parser Xml.Serializer Xml.RoundTripFile.
 Open Scope list_scope.
@@ -439,6 +441,111 @@ Theorem C10_reachable2_owned :
            attr_schema_location root_attrs l empty_world = Val w' ->
   TreeInv w' /\ FilesInv T w' /\ FilesOwned w'.
 Proof. exact reachable2_owned. Qed.
+
+(* ---------- load_buffer (OpLoad): what a successful load keeps ----------
+   FilesInvW = FilesInvM without rule (c) (a merge makes the membership of every element that only one side has
+   explicit, below splittable parents or not).  Everything goes through agent-c09's abstraction of the model as an
+   id-annotated tree (ModelTree) and the pure merge (pmerge): *)
+(* the pure merge keeps the membership invariant of trees when it is started with the effective set of the element *)
+Theorem C10_pmerge_invariant :
+  forall (T : tables) (LATEST defref : N) (fver : N -> option N) (F : list N) (nf : N)
+         (fuel : nat) (a : MergeSpec.htree) (files : list N) (b a' : MergeSpec.htree) (inh : list N),
+  HInv F inh a -> incl inh F -> inh <> [] ->
+  seteq files (eff_of inh (MergeSpec.h_local a)) -> NoLocal b ->
+  MergePure.pmerge T LATEST defref fver fuel a files b nf = Val (OK a') ->
+  MergeSpec.h_local a' = MergeSpec.h_local a /\
+  forall k, In (inl k) (MergePure.h_content a') -> HInv (nf :: F) (nf :: eff_of inh (MergeSpec.h_local a)) k.
+Proof. exact pmerge_hinv. Qed.
+
+(* bridge: for a model that is an abstracted tree, FilesInvW <-> HInvRoot of the erased tree *)
+Theorem C10_bridge_tree_to_heap :
+  forall (w : world), Core w -> forall (F : list N) (ta : LoadRefineBase.atree) (x : model),
+  LoadRefineBase.AbsA w ta -> m_root x = LoadRefineBase.a_id ta -> m_files x = F ->
+  (exists rn k, w_nodes w (LoadRefineBase.a_id ta) = Some rn /\ n_parent rn = PModel k) ->
+  HInvRoot F (LoadRefineBase.erase ta) -> FilesInvW w x.
+Proof. exact tree_to_heap. Qed.
+
+Theorem C10_bridge_heap_to_tree :
+  forall (w : world), Core w -> forall (F : list N) (ta : LoadRefineBase.atree) (x : model),
+  LoadRefineBase.AbsA w ta -> m_root x = LoadRefineBase.a_id ta -> m_files x = F -> F <> [] ->
+  (exists rn k, w_nodes w (LoadRefineBase.a_id ta) = Some rn /\ n_parent rn = PModel k) ->
+  FilesInvW w x -> HInvRoot F (LoadRefineBase.erase ta).
+Proof. exact heap_to_tree. Qed.
+
+(* a further file is merged: FilesInvW and RootFull are kept when the root is in all files, for every merge
+   C09_load_refines covers (Clean: outside C03's Known_load_shared; the pure merge succeeds) *)
+Theorem C10_load_merge :
+  forall (T : tables) (LATEST defref : N) (m : N) (filename : list N) (root : Parser.etree) (st : Parser.pstate)
+         (w : world) (ta : LoadRefineBase.atree) (files : list N) (x : model) (r : out N) (w' : world),
+  Core w -> Core w' -> LoadRefineTop.ModelTree w m ta files -> files <> [] ->
+  nth_opt (w_models w) (N.to_nat m) = Some x -> FilesInvW w x -> RootFull w x ->
+  let fid := N.of_nat (List.length (w_files w)) in
+  let fl := mkFile m filename (Parser.p_version st) (Parser.p_standalone st) in
+  let fver := LoadRefineMain.fver_files (w_files w ++ [fl]) in
+  (forall fuel, (LoadRefineBase.adepth ta < fuel)%nat ->
+     LoadRefinePure.Clean T LATEST defref fver fuel (LoadRefineBase.erase ta) (fold_right set_add [] files) (MergePure.htree_of_etree root) fid /\
+     exists ha', MergePure.pmerge T LATEST defref fver fuel (LoadRefineBase.erase ta) (fold_right set_add [] files) (MergePure.htree_of_etree root) fid = Val (OK ha')) ->
+  Load.load_parsed T LATEST defref m filename root st w = Val (r, w') ->
+  r = ER OverlappingDataError \/
+  (r = OK fid /\ w_files w' = w_files w ++ [fl] /\
+   exists x', nth_opt (w_models w') (N.to_nat m) = Some x' /\ m_files x' = files ++ [fid] /\ FilesInvW w' x' /\ RootFull w' x').
+Proof. exact load_merge_inv. Qed.
+
+(* the first file of a model *)
+Theorem C10_load_first :
+  forall (T : tables) (LATEST defref : N) (m : N) (filename : list N) (root : Parser.etree) (st : Parser.pstate)
+         (w : world) (x : model) (r : out N) (w' : world),
+  Core w' -> nth_opt (w_models w) (N.to_nat m) = Some x -> m_files x = [] ->
+  Load.load_parsed T LATEST defref m filename root st w = Val (r, w') ->
+  let fid := N.of_nat (List.length (w_files w)) in
+  r = ER OverlappingDataError \/
+  (r = OK fid /\
+   exists x', nth_opt (w_models w') (N.to_nat m) = Some x' /\ m_files x' = [fid] /\ FilesInvW w' x' /\ RootFull w' x').
+Proof. exact load_first_inv. Qed.
+
+(* the files of a Good master (agent-c09's class), loaded into an empty model: hypotheses of C09_merge_union *)
+Theorem C10_load_good :
+  forall (T : tables) (LATEST defref v : N) (tab_el tab_at tab_en : nametab) (check_fn : N -> list N -> res bool)
+         (float_parse : list N -> option N) (M : MergeSpec.mtree) (m : N) (x : model) (w0 : world) (n : nat) (strict : bool)
+         (bufs : list (list N * list N)) (items : list LoadRefineTop.item) (os : list (out (N * list Parser.perror))) (w : world),
+  MergePureProofs.Good T defref v M ->
+  nth_opt (w_models w0) (N.to_nat m) = Some x -> m_files x = [] ->
+  let gs := Load.n_range (S n) (N.of_nat (List.length (w_files w0))) in
+  Forall2 (LoadRefineTop.parses_to T tab_el tab_at tab_en check_fn float_parse strict) bufs items ->
+  Forall2 (LoadRefineTop.is_view v M) gs items ->
+  (forall g, In g gs -> In g (MergePureProofs.mfiles M)) ->
+  LoadRefineTop.load_bufs T tab_el tab_at tab_en check_fn float_parse LATEST defref m strict bufs w0 = Val (os, w) ->
+  Forall (fun o => o <> ER DuplicateFilenameError /\ o <> ER OverlappingDataError) os ->
+  Core w ->
+  exists x', nth_opt (w_models w) (N.to_nat m) = Some x' /\ m_files x' = gs /\ FilesInvW w x' /\ RootFull w x'.
+Proof. exact load_good_inv. Qed.
+
+(* FilesOwned: unconditional for every successful load — the file table grows by the new file (which names the model),
+   and of all model records only the file list of that model changes, by the new id *)
+Theorem C10_load_files :
+  forall (T : tables) (LATEST defref : N) (m : N) (filename : list N) (root : Parser.etree) (st : Parser.pstate)
+         (w : world) (fid : N) (w' : world),
+  Load.load_parsed T LATEST defref m filename root st w = Val (OK fid, w') ->
+  fid = N.of_nat (List.length (w_files w)) /\
+  w_files w' = w_files w ++ [mkFile m filename (Parser.p_version st) (Parser.p_standalone st)] /\
+  exists x, nth_opt (w_models w) (N.to_nat m) = Some x /\
+    map m_files (w_models w') = list_set (map m_files (w_models w)) (N.to_nat m) (m_files x ++ [fid]).
+Proof. exact load_parsed_files. Qed.
+
+Theorem C10_load_files_owned :
+  forall (T : tables) (LATEST defref : N) (m : N) (filename : list N) (root : Parser.etree) (st : Parser.pstate)
+         (w : world) (fid : N) (w' : world),
+  FilesOwned w -> Load.load_parsed T LATEST defref m filename root st w = Val (OK fid, w') -> FilesOwned w'.
+Proof. exact load_parsed_owned. Qed.
+
+(* [F] RootFull is needed — the known finding C10-merge-membership-inconsistent as a theorem: a state reached through
+   the API (TreeInv, FilesInv, FilesOwned hold) whose root is not in all files, and a successful load after which
+   FilesInvW (b) fails *)
+Theorem C10_load_root_partial_witness :
+  exists (w : world) (x : model) (w' : world) (x' : model) (fid : N),
+    TreeInv w /\ FilesInv TinyF.tiny w /\ FilesOwned w /\ nth_opt (w_models w) 0 = Some x /\ ~ RootFull w x /\
+    TinyL.ld w = Val (OK fid, w') /\ nth_opt (w_models w') 0 = Some x' /\ ~ FilesInvW w' x'.
+Proof. exact root_partial_witness. Qed.
 
 (* AutosarModel::duplicate (PENDING for FilesInv of the copy): FilesOwned is kept, the models that were there keep their
    places and their invariant *)
